@@ -421,6 +421,10 @@ def main():
         import extra as X
         r = getattr(X, name)(tier, seed, runner, lines)
         cov[name] = r.get('coverage', {})
+        if name == 'configs':
+            # level translation_validation: its own keys at the top level of coverage
+            cov['programs'] = cov[name].get('programs', 0)
+            cov['disagreements_checked'] = cov[name].get('disagreements_checked', 0)
         for v in r.get('violations', []): violations.append(v)
     # ---- 6. broken proof obligations: the search above ran with the enlarged budget
     if broken:
